@@ -91,7 +91,7 @@ MIN = {
     'survivors_checked': 20000,
 }
 CASE_TIMEOUT = 60
-NCASES = {'quick': 2000, 'thorough': 24000}
+NCASES = {'quick': 4000, 'thorough': 120000}
 
 
 def ncases(tier):
@@ -517,9 +517,49 @@ def build_tree(rng, home):
             text = link_text(parent.phys, tp)
         ln = T.mklink(parent, lname, text, tp, isdir)
         ln.note = kind
+        if isdir and rundir is not None and follow_all_count(
+                root, rundir, 1200) >= 1200:
+            # a recursive glob that follows links would explode
+            # (link cycles): not a tree this check can afford
+            os.unlink(ln.phys)
+            del parent.children[lname]
+            t.discarded_links = getattr(t, 'discarded_links', 0) + 1
+            continue
         t.nonstd.append(ln)
     t.root = root
     return t
+
+
+def follow_all_count(root, start, budget):
+    """Entries a walk following *every* directory link would list."""
+    index = {}
+
+    def idx(n):
+        index[n.phys] = n
+        if n.kind == 'dir':
+            for c in n.children.values():
+                idx(c)
+    idx(root)
+    count = 0
+    stack = [(start, 0)]
+    while stack and count < budget:
+        d, hops = stack.pop()
+        for c in d.children.values():
+            count += 1
+            if c.kind == 'dir':
+                stack.append((c, hops))
+            elif c.kind == 'link':
+                tgt = c.tnode if c.tnode is not None else index.get(
+                    c.tphys or '')
+                # resolve link chains (alias -> real)
+                seen = 0
+                while tgt is not None and tgt.kind == 'link' and seen < 5:
+                    tgt = tgt.tnode if tgt.tnode is not None else (
+                        index.get(tgt.tphys or ''))
+                    seen += 1
+                if tgt is not None and tgt.kind == 'dir' and hops < 40:
+                    stack.append((tgt, hops + 1))
+    return count
 
 
 # ---------------------------------------------------------------------------
@@ -705,6 +745,8 @@ def run_case(ctx, i, rng):
     home = _SANDBOX
     t = build_tree(rng, home)
     ctx.count('trees')
+    if getattr(t, 'discarded_links', 0):
+        ctx.count('discard_link_cycle_blowup', t.discarded_links)
     # ---- decide the clean
     whole = rng.random() < 0.22
     items, flags = ([], set()) if whole else gen_items(rng, t)
@@ -741,7 +783,8 @@ def run_case(ctx, i, rng):
             multi = len(ok_parts) > 1
             for comps, dironly in ok_parts:
                 T.select(t.rundir, comps, dironly, sel,
-                         soft_dironly_links=multi)
+                         soft_dironly_links=multi,
+                         root_entry=t.run_link or t.rundir)
                 if '**' in comps:
                     ctx.count('items_recursive')
     if whole:
@@ -781,7 +824,7 @@ def run_case(ctx, i, rng):
     opts = CleanOptions(
         rm_dirs=list(items), local_only=(t.db_mode == 'local_only'))
     events = []
-    outcome, exc_info = 'ok', None
+    outcome, exc_info, exc_file = 'ok', None, None
     _EVENTS = events
     try:
         asyncio.run(init_clean(cid, opts))
@@ -791,6 +834,7 @@ def run_case(ctx, i, rng):
         outcome, exc_info = 'WorkflowFilesError', str(exc)
     except (CylcError, OSError, ValueError) as exc:
         outcome, exc_info = type(exc).__name__, str(exc)
+        exc_file = getattr(exc, 'filename', None)
     finally:
         _EVENTS = None
     S1 = T.snapshot(zones)
@@ -829,7 +873,7 @@ def run_case(ctx, i, rng):
         ctx.count('rejected_but_model_accepts')
 
     # ---- tidy-up allowances (see ASSUMPTIONS)
-    run_gone = t.run_phys not in S1
+    run_gone = not os.path.exists(t.run_phys)   # absent or dangling link
     tidy = set()
     runN = os.path.join(t.wparent.phys, 'runN')
     if t.shape == 'numbered' and t.runN_points_here and run_gone:
@@ -955,13 +999,27 @@ def run_case(ctx, i, rng):
             left = [p for p in must if p in S1]
             if left:
                 k0 = kinds.get(left[0], '?')
-                fail(f'C38:clean-raised:{outcome}:matched-paths-left',
+                cause = 'other'
+                if exc_file and not os.path.lexists(exc_file):
+                    # lexical paths of the selected entries
+                    sel_lex = {os.path.join(t.run_phys, *lx)
+                               for lx in sel.must}
+                    if any(exc_file != a and T.under(str(exc_file), a)
+                           for a in sel_lex):
+                        cause = 'descendant-of-already-deleted-match'
+                    elif str(exc_file) in sel_lex:
+                        cause = 'match-already-gone'
+                fail(f'C38:clean-raised:{outcome}:{cause}:'
+                     'matched-paths-left',
                      f'cleaning {cid} with items {items} raised {outcome} '
                      f'({(exc_info or "")[:120]}) and left {len(left)} '
                      f'selected path(s), e.g. {rel(sorted(left)[0])} '
                      f'({k0})', left=[rel(x) for x in sorted(left)[:8]])
             elif must:
                 ctx.count('raised_but_nothing_left:' + outcome)
+                if os.environ.get('C38_DEBUG'):
+                    print('RAISED', i, items, exc_info, desc,
+                          file=sys.stderr)
             else:
                 ctx.count('raised_with_empty_selection:' + outcome)
         else:
@@ -1001,6 +1059,9 @@ def run_case(ctx, i, rng):
         if extra:
             ctx.count('extra_deleted_inside', len(extra))
             ctx.count('cases_with_extra_deleted_inside')
+            if os.environ.get('C38_DEBUG'):
+                print('EXTRA', i, items, [rel(x) for x in extra][:10],
+                      desc, file=sys.stderr)
     if removed:
         ctx.count('cases_deleting_something')
     ctx.count('paths_removed', len(removed))
